@@ -2,6 +2,3 @@
 #include "h.h"
 static void g(plan_t *p, rng_t *r, int t) { gen_sched(p, r, t, 0); }
 static void *root(void *a) { (void)a; return 0; }
-#ifndef HAVE_C16
-const harness_t h_c16 = { "C16", g, 0, root, 0 };
-#endif
